@@ -130,7 +130,12 @@ func (f *filler) fill(v reflect.Value) {
 		v.Set(reflect.ValueOf(in))
 		return
 	case t == tError:
-		return // errors are handled by the session scripts
+		// (transport-level errors are handled by the session scripts; an error that
+		// is a member of an object - a failed instruction's - travels with it)
+		if f.t.Chance(1, 3) {
+			v.Set(reflect.ValueOf(&rhp3.RPCError{Description: string(hexish(sim.HashBytes("member-err", uint64(f.depth), 1, f.t.Range(1, 60))))}))
+		}
+		return
 	}
 	switch t.Kind() {
 	case reflect.Bool:
@@ -156,7 +161,11 @@ func (f *filler) fill(v reflect.Value) {
 	case reflect.Int, reflect.Int64, reflect.Int32:
 		v.SetInt(int64(f.t.Choose(1 << 30)))
 	case reflect.String:
-		v.SetString(string(hexish(f.bytes(f.t.Choose(24)))))
+		n := f.t.Choose(24)
+		if f.t.Chance(1, 40) {
+			n = []int{1000, 1016, 1023, 1024, 1025, 2049, 5000}[f.t.Choose(7)] // around the encoder's buffer size
+		}
+		v.SetString(string(hexish(f.bytes(n))))
 	case reflect.Array:
 		if t.Elem().Kind() == reflect.Uint8 {
 			reflect.Copy(v, reflect.ValueOf(f.bytes(t.Len())))
